@@ -5,6 +5,8 @@ package main
 
 import (
 	"fmt"
+	"os"
+	"runtime/debug"
 	"go/types"
 	"sync"
 
@@ -155,6 +157,9 @@ func (s *Sched) runGoroutine(g *goroutine, isMain bool, body func()) {
 		default:
 			if r.inconclusive == "" {
 				r.inconclusive = fmt.Sprintf("engine fault: %v", p)
+				if os.Getenv("VERIF_DEBUG") != "" {
+					r.inconclusive += "\n" + string(debug.Stack())
+				}
 			}
 		}
 		s.endRun()
